@@ -396,7 +396,13 @@ impl VmProc {
 
     pub fn exec_line(&mut self, text: &str) -> LineObs {
         let vm = &mut self.vm;
-        let name = format!("{SIM_CWD}/job.tex");
+        // The name a source is registered under: a path, as `texcraft run` does, or - every third
+        // line - the empty name, as the repository's REPL does for what is typed at its prompt.
+        let name = if self.line_counter % 3 == 2 {
+            String::new()
+        } else {
+            format!("{SIM_CWD}/job.tex")
+        };
         self.line_counter += 1;
         {
             let env = &mut vm.state.env;
